@@ -29,7 +29,7 @@ Print Assumptions C11_sync_converges.
 Theorem C11_source_version_accounted : forall st now w p s,
   rows_ok w p -> w_src w p = Some s ->
   let w' := path_sync st now w p in
-  w_src w' p = Some s \/ w_src w' (cname Source p) = Some s \/
+  w_src w' p = Some s \/ (exists k, w_src w' (cname_k Source p k) = Some s) \/
   (exists rs, w_dbs w p = Some rs /\ is_modified s rs = false) \/
   (exists c, classify (w_src w p) (w_dst w p) (w_dbs w p) (w_dbd w p) = Some c /\ is_conflict c = true /\ st <> RenameBoth) \/
   (w_dbs w p = None /\ (exists rd, w_dbd w p = Some rd) /\ w_dst w p = None).
@@ -39,12 +39,23 @@ Print Assumptions C11_source_version_accounted.
 Theorem C11_dest_version_accounted : forall st now w p d,
   rows_ok w p -> w_dst w p = Some d ->
   let w' := path_sync st now w p in
-  w_dst w' p = Some d \/ w_dst w' (cname Dest p) = Some d \/
+  w_dst w' p = Some d \/ (exists k, w_dst w' (cname_k Dest p k) = Some d) \/
   (exists rd, w_dbd w p = Some rd /\ is_modified d rd = false) \/
   (exists c, classify (w_src w p) (w_dst w p) (w_dbs w p) (w_dbd w p) = Some c /\ is_conflict c = true /\ st <> RenameBoth) \/
   (w_dbd w p = None /\ (exists rs, w_dbs w p = Some rs) /\ w_src w p = None).
 Proof. exact dest_version_accounted. Qed.
 Print Assumptions C11_dest_version_accounted.
+
+(* ... and no action at a path destroys a file at ANOTHER path -- in particular a conflict copy made by an earlier run, even
+   within the same second: the rename takes the first conflict name that is not in use (`fix: bisync never renames a
+   conflicting file onto an existing conflict copy`; premise: one of the four names the model tries is free -- the code's
+   search is unbounded).  Before that repair the rename went onto the plain name and silently destroyed what was there. *)
+Theorem C11_other_paths_survive : forall now w p a q,
+  q <> p -> slot_free (w_src w) Source p -> slot_free (w_dst w) Dest p ->
+  (forall v, w_src w q = Some v -> w_src (exec now w p a) q = Some v) /\
+  (forall v, w_dst w q = Some v -> w_dst (exec now w p a) q = Some v).
+Proof. exact exec_keeps_other_paths. Qed.
+Print Assumptions C11_other_paths_survive.
 
 (* prior states with a row for one side only are covered: [rows_ok] holds of them outright *)
 Example ex_partial_rows_ok : forall w p r, w_dbs w p = Some r -> w_dbd w p = None -> rows_ok w p.
@@ -74,7 +85,7 @@ Definition wA : world :=
            (fun p => if N.eqb p 8 then Some (mk_fent 5 2 2) else if N.eqb p 12 then Some (mk_fent 9 3 5) else None)
            (fun _ => None) (fun _ => None).
 Example ex_first_sync : match bisync [4; 8; 12]%N RenameBoth 0 100 wA with
-  | Some w' => converged [4; 8; 12]%N w' = true /\ w_src w' 33%N = Some (mk_fent 5 2 1) /\ w_dst w' 34%N = Some (mk_fent 5 2 2)
+  | Some w' => converged [4; 8; 12]%N w' = true /\ w_src w' 129%N = Some (mk_fent 5 2 1) /\ w_dst w' 130%N = Some (mk_fent 5 2 2)
   | None => False end.
 Proof. vm_compute. repeat split. Qed.
 
@@ -83,6 +94,16 @@ Example ex_equal_mtimes :
   let w := mk_world (fun p => if N.eqb p 4 then Some (mk_fent 5 10 1) else None) (fun p => if N.eqb p 4 then Some (mk_fent 5 10 2) else None)
                     (fun _ => None) (fun _ => None) in
   match bisync [4]%N Newer 0 100 w with
-  | Some w' => w_src w' 17%N = Some (mk_fent 5 10 1) /\ w_dst w' 18%N = Some (mk_fent 5 10 2) /\ w_src w' 4%N = None /\ w_dst w' 4%N = None
+  | Some w' => w_src w' 65%N = Some (mk_fent 5 10 1) /\ w_dst w' 66%N = Some (mk_fent 5 10 2) /\ w_src w' 4%N = None /\ w_dst w' 4%N = None
   | None => False end.
+Proof. vm_compute. repeat split. Qed.
+
+(* two rename conflicts on one path: the second takes the next name, the first conflict copies stay (they used to be overwritten
+   when both fell into one second) *)
+Example ex_second_conflict_keeps_first_copies :
+  let h := [Edit Source 4 (Create 3 7); Edit Dest 4 (Create 3 9); Sync RenameBoth 0;
+            Edit Source 4 (Create 3 11); Edit Dest 4 (Create 3 13); Sync RenameBoth 0] in
+  let w := snd (run_history [4]%N h) in
+  option_map f_content (w_src w 65%N) = Some 7%N /\ option_map f_content (w_dst w 66%N) = Some 9%N /\
+  option_map f_content (w_src w 69%N) = Some 11%N /\ option_map f_content (w_dst w 70%N) = Some 13%N.
 Proof. vm_compute. repeat split. Qed.
